@@ -67,6 +67,13 @@ func checkC13(r *Run) {
 			add(mk, i%3 == 0)
 		}
 	}
+	// the isolated shapes (map<string,bytes>, lists and maps of empty messages, by-value duration branches ...)
+	for i, e := range descgen.Exotic() {
+		if r.thorough() || i%2 == 0 {
+			name := e.Name
+			add(func() *descgen.Entry { return descgen.CuratedByName(name) }, i%4 == 0)
+		}
+	}
 	n := r.pick(5, 110)
 	for i := 0; i < n; i++ {
 		i := i
@@ -417,6 +424,62 @@ func checkC11(r *Run) {
 				cases = append(cases, v)
 				pairs = append(pairs, rt.Pair{A: base.Name, B: v.Name, PRF: baseName, Label: opt + "/message.field-is-tail-of-another-path", ModelChecks: true})
 				total++
+			}
+		}
+		// a field literally named `key` / `value` next to a map field (the names of the synthetic map entry),
+		// addressed by its Message.Field key; and a message-typed field whose message embeds another one,
+		// addressed by its path (the embedding field shares that path)
+		{
+			done := map[string]bool{}
+			for _, o := range occ {
+				hasMap, hasEmbed := false, false
+				for _, fl := range o.Msg.Fields {
+					if fl.Card == ir.Map {
+						hasMap = true
+					}
+				}
+				if o.Field.Kind == ir.KMessage && o.Field.Card == ir.Single && o.Field.CustomType == "" {
+					if sub := be.File.Msg(o.Field.Ref, o.Field.RefDep); sub != nil {
+						for _, fl := range sub.Fields {
+							if fl.Embed {
+								hasEmbed = true
+							}
+						}
+					}
+				}
+				var opts []string
+				key := o.Key
+				label := ""
+				switch {
+				case (o.Field.Name == "value" || o.Field.Name == "key") && hasMap && !done["kv"]:
+					done["kv"] = true
+					opts, label = []string{"exclude_fields", "sensitive_fields"}, "message.field/named-like-map-entry"
+					live := 0
+					for _, fl := range o.Msg.Fields {
+						if !fl.Embed {
+							live++
+						}
+					}
+					if live < 2 {
+						continue
+					}
+				case hasEmbed && !done["embed"]:
+					done["embed"] = true
+					key = o.Path
+					opts, label = []string{"required_fields", "sensitive_fields", "computed_fields"}, "path/of-a-message-that-embeds"
+				default:
+					continue
+				}
+				for j, opt := range opts {
+					ve := m()
+					plain(ve)
+					applyOption(ve.Cfg, opt, key, 800+j)
+					v := caseFrom(descgen.Rename(ve, fmt.Sprintf("%sx%d%d", baseName, len(done), j)))
+					v.Tags = append(v.Tags, opt, label)
+					cases = append(cases, v)
+					pairs = append(pairs, rt.Pair{A: base.Name, B: v.Name, PRF: baseName, Label: opt + "/" + label, ModelChecks: true})
+					total++
+				}
 			}
 		}
 		// layered edits: the base already configures a field that occurs at several paths under its
